@@ -9,7 +9,7 @@ BYTES_PALETTE = [
 def int_valid(t, a):
     """a valid value of integer type t chosen by code a; code 0 -> 1 (simplest non-default)"""
     table = [1, 0, t.hi, t.lo, t.hi - 1, t.lo + 1 if t.signed else 2, 7, 42,
-             200 if t.hi >= 200 else 3, -1 if t.signed else 255 if t.hi >= 255 else 5]
+             200 if t.hi >= 200 else 3, -1 if t.signed else 255 if t.hi >= 255 else 5, True, False]
     k = a % (len(table) + 1)
     if k < len(table):
         return table[k]
@@ -22,7 +22,7 @@ def int_invalid(t, a):
 
 
 def float_valid(t, a):
-    table = [1.5, 0.0, -2.25, 1, 1024.0, -0.5, 3.0e10, 1.0e-3, 123456789, float("inf")]
+    table = [1.5, 0.0, -2.25, 1, 1024.0, -0.5, 3.0e10, 1.0e-3, 123456789, float("inf"), True]
     return table[a % len(table)]
 
 
